@@ -61,8 +61,13 @@ def run_case(ctx, g):
         explicit_tref = True
         tr = float(np.round((c["t_ref"] - rng.uniform(1, 200)) * 8) / 8)
         sv = pr.surveys[0]
+        # the reference epoch may be given in any time scale; the sampler works in TCB (like the data times)
+        scale = str(rng.choice(["tcb", "utc", "tdb"]))
+        tref_obj = Time(tr, format="mjd", scale=scale)
+        ctx.count("explicit_tref_scale=" + scale)
         pr.data = tj.RVData(t=sv["t"], rv=sv["rv"] * scen.U(sv["unit"]), rv_err=sv["err"] * scen.U(sv["unit"]),
-                            t_ref=Time(tr, format="mjd", scale="tcb"))
+                            t_ref=tref_obj)
+        tr = float(tref_obj.tcb.mjd)
         c["t_ref"] = tr
         c["trend"] = pr.trend_matrix(c["t"], c["label"], tr)
     du = pr.data_unit
@@ -228,6 +233,7 @@ def post(ctx):
     c = ctx.counters
     if not ctx.replay_mode:
         ctx.require("explicit t_ref cases", c["explicit_tref"], 2)
+        ctx.require("explicit t_ref given in a non-TCB time scale", c["explicit_tref_scale=utc"] + c["explicit_tref_scale=tdb"], 3)
         ctx.require("explicit t_ref with a polynomial trend (p>=2)", c["explicit_tref_with_trend"], 3)
         ctx.require("p>=2 cases", c["p=2"] + c["p=3"], 4)
         ctx.require("q>=1 cases", c["q=1"] + c["q=2"], 3)
